@@ -255,8 +255,9 @@ theorem tableCovers_spec {M : Ctx} {T : TypeTable} {p : Particle} (h : M.tableCo
 
 /-- **An EDC refusal is always right**: whenever the port of `check_model` raises "Element Declarations
     Consistent violation" — any model, any nesting, wildcards and substitution groups included, both XSD
-    versions — the model does violate EDC: two declarations it contains (directly or through a
-    substitution group) have the same name and different types. -/
+    versions, the pinned algorithm and every combination of the proposed repairs (`M.fx`) — the model does
+    violate EDC: two declarations it contains (directly or through a substitution group) have the same name
+    and different types. -/
 theorem checkModel_edc_error_sound (M : Ctx) (T : TypeTable) (p : Particle) (hT : M.tableCovers T p = true) (e pe : Nat)
     (h : (M.checkModel p).err = some (.edc e pe)) : ¬ EDC T p := by
   obtain ⟨he, hpe, hc⟩ := checkModel_edc_pair M p e pe h
@@ -267,8 +268,10 @@ theorem checkModel_edc_error_sound (M : Ctx) (T : TypeTable) (p : Particle) (hT 
     simp only [Bool.and_eq_true] at hel
     obtain ⟨da, sa⟩ := tableCovers_spec hT e he hel.1
     obtain ⟨db, sb⟩ := tableCovers_spec hT pe hpe hel.2
-    by_cases hv : M.v11 = true
-    · simp only [hv, Bool.not_true, Bool.false_eq_true, if_false] at hc
+    by_cases hv : (!M.v11 && !M.fx.edc10) = true
+    · simp only [hv, if_true, Bool.or_eq_false_iff, bne_eq_false_iff_eq, beq_eq_false_iff_ne] at hc
+      exact hc.2 (hedc _ da _ db hc.1)
+    · simp only [hv, Bool.false_eq_true, if_false] at hc
       split at hc
       · rename_i hn
         have : (M.info e).ty = (M.info pe).ty := hedc _ da _ db (by simpa using hn)
@@ -287,19 +290,18 @@ theorem checkModel_edc_error_sound (M : Ctx) (T : TypeTable) (p : Particle) (hT 
             have : (M.info e).ty = e2.2 := hedc _ da _ hm hn'.symm
             simp [this] at hc
           · cases hc
-    · simp only [hv, Bool.not_false, if_true, Bool.or_eq_false_iff, bne_eq_false_iff_eq, beq_eq_false_iff_ne] at hc
-      exact hc.2 (hedc _ da _ db hc.1)
   · simp [hel] at hc
 
 /-- **A UPA refusal always concerns two overlapping particles**: whenever the port of `check_model` raises a
-    UPA error (either message) — any model, any nesting, both XSD versions — the two particles it names are
-    two *different* particles that `check_model` visited (not below a `maxOccurs = 0` item), `is_overlap`
-    holds for them and `is_consistent` holds.  (The converse direction, that the competition is real, is
+    UPA error (either message) — any model, any nesting, both XSD versions, every variant `M.fx` — the two
+    particles it names were visited by `check_model` (not below a `maxOccurs = 0` item), `is_overlap` holds
+    for them and `is_consistent` holds; they are two *different* objects unless the shared-group repair is
+    in the tree (then one particle object that sits at two places of the model is compared with itself).  (The converse direction, that the competition is real, is
     false from depth 3 on: `checkModel_false_alarm_norepeat_counterexample`.) -/
 theorem checkModel_upa_error_overlap (M : Ctx) (p : Particle) (pe e : Nat)
     (h : (M.checkModel p).err = some (.upa pe e) ∨ (M.checkModel p).err = some (.sameGroup pe e)) :
-    pe ∈ (M.visited p).map (·.1) ∧ e ∈ (M.visited p).map (·.1) ∧ pe ≠ e ∧ M.overlap pe e = true ∧
-      M.consistent e pe = true :=
+    pe ∈ (M.visited p).map (·.1) ∧ e ∈ (M.visited p).map (·.1) ∧ (M.fx.shared = false → pe ≠ e) ∧
+      M.overlap pe e = true ∧ M.consistent e pe = true :=
   checkModel_upa_pair M p pe e h
 
 /-- **XSD 1.1 precedence clause**: in XSD 1.1 the pinned algorithm never refuses a model because of
